@@ -2,6 +2,7 @@ use std::collections::HashMap;
 use std::fs::File;
 use std::io::{BufWriter, Write};
 
+#[derive(Clone)]
 pub struct Opts {
     map: HashMap<String, String>,
 }
@@ -83,8 +84,24 @@ pub fn catch<T, F: FnOnce() -> T + std::panic::UnwindSafe>(f: F) -> Result<T, St
     }
 }
 
+pub static LAST_PANIC: std::sync::Mutex<String> = std::sync::Mutex::new(String::new());
+
+/// Silence the default panic message but remember where the last panic happened, so that a panic of the code
+/// under test that escapes a logged call can still be reported as such (and told apart from a driver bug).
 pub fn quiet_panics() {
-    std::panic::set_hook(Box::new(|_| {}));
+    std::panic::set_hook(Box::new(|info| {
+        let loc = info.location().map(|l| format!("{}:{}", l.file(), l.line())).unwrap_or_default();
+        let msg = if let Some(s) = info.payload().downcast_ref::<&str>() {
+            s.to_string()
+        } else if let Some(s) = info.payload().downcast_ref::<String>() {
+            s.clone()
+        } else {
+            "panic".to_string()
+        };
+        if let Ok(mut g) = LAST_PANIC.lock() {
+            *g = format!("{loc} {msg}");
+        }
+    }));
 }
 
 /// u64 as little-endian base-4096 limbs (TLC integers are 32-bit).
